@@ -268,6 +268,16 @@ func finalRoutineOracle(o *rcOps, stateVariant bool) {
 	}
 }
 
+// storedStateOracle (single controller): GetState returns the state most recently stored.
+func storedStateOracle(o *rcOps) {
+	if o.getState == nil {
+		return
+	}
+	if got, want := o.getState(), int(vsched.Ctr(rState)); got != want {
+		fail("C05.stale-state", "GetState() = %d but the state most recently stored by the controller is %d", got, want)
+	}
+}
+
 // spuriousCancelOracle (C14, single controller, instances that run until cancelled): an instance that
 // entered with a live context while no controller call was in progress, and after whose entry no
 // controller call was issued, can only have been cancelled by the container on its own (e.g. by a
@@ -366,6 +376,9 @@ func routineWordOpt(state bool, alphabet []int, length int, outcomes []int, sett
 				vsched.Settle()
 			}
 			doLetter(o, alphabet[vsched.Choose(len(alphabet))], &cur, "")
+		}
+		if state {
+			storedStateOracle(o)
 		}
 		finalRoutineOracle(o, state)
 		spuriousCancelOracle()
@@ -469,6 +482,27 @@ func init() {
 		Doc:   "RoutineContainer: as routine-word3-settle with words of length 2 over the alphabet extended by WaitExited(already-cancelled waiter context), and a deeper schedule bound",
 		Quick: eng.Bounds{PB: 2, Delay: true}, Thorough: eng.Bounds{PB: 3, Delay: true},
 		Body: routineWordOpt(false, []int{lSetRoutine, lSetNil, lRestart, lCtxFreshRestart, lClear, lCtxFresh, lCtxDead, lWaitDead}, 2, []int{iUntilCancelled}, true),
+	})
+	eng.Register(&eng.Scenario{
+		Name: "sroutine-bare-word4", Props: []string{"C04", "C05", "C14"}, ObsNames: stdObs,
+		Doc:   "StateRoutineContainer starting with nothing set (no context, no routine, empty state): every word of length 4 over {SetState(1), SetState(2), SetState(0), SetStateRoutine(new), SetStateRoutine(nil), SetContext(fresh,false), ClearContext} - i.e. every order of supplying the three ingredients, including states stored and cleared before any routine exists; survivor only if context, routine and non-empty state are all set, and it was given GetState()",
+		Quick: eng.Bounds{PB: 1, Delay: true}, Thorough: eng.Bounds{PB: 2, Delay: true},
+		Body: func() {
+			o := newSRC([]int{iUntilCancelled})
+			var cur context.Context
+			alpha := []int{lState1, lState2, lState0, lSetRoutine, lSetNil, lCtxFresh, lClear}
+			for i := 0; i < 4; i++ {
+				doLetter(o, alpha[vsched.Choose(len(alpha))], &cur, "")
+			}
+			storedStateOracle(o)
+			finalRoutineOracle(o, true)
+			spuriousCancelOracle()
+			o.clear()
+			vsched.Settle()
+			if a := vsched.Ctr(rActive); a != 0 {
+				fail("C05.live-after-clear", "%d instance(s) still executing after ClearContext and quiescence", a)
+			}
+		},
 	})
 	eng.Register(&eng.Scenario{
 		Name: "sroutine-word2", Props: []string{"C04", "C05", "C14"}, ObsNames: stdObs,
@@ -675,6 +709,145 @@ func init() {
 				fail("C14.retry-lost", "a new state (2) was set: runs=%d live=%d, want a second run holding state 2", vsched.Ctr(rRuns), live)
 			}
 			k.ClearContext()
+			vsched.Settle()
+		},
+	})
+	eng.Register(&eng.Scenario{
+		Name: "routine-shared-option", Props: []string{"C14"}, ObsNames: stdObs, Manual: true,
+		Doc:   "One WithRetry(exponential config, initial interval 50ms, multiplier 2) option value used to build two RoutineContainers: container A fails three times in a row (its retry intervals grow 50, 100, 200 ms), then container B fails for the first time: B is retried after ITS first back-off interval (50 ms) - the two containers do not share back-off state",
+		Quick: eng.Bounds{PB: 1}, Thorough: eng.Bounds{PB: 2},
+		Body: func() {
+			conf := &ubackoff.Backoff{BackoffKind: ubackoff.BackoffKind_BackoffKind_EXPONENTIAL, Exponential: &ubackoff.Exponential{InitialInterval: 50, Multiplier: 2, MaxInterval: 10000}}
+			opt := routine.WithRetry(conf)
+			mk := func(failures int64, runsCtr int) *routine.RoutineContainer {
+				k := routine.NewRoutineContainer(opt)
+				k.SetRoutine(func(ctx context.Context) error {
+					if vsched.CtrAdd(runsCtr, 1) <= failures {
+						return errRoutine
+					}
+					<-ctx.Done()
+					return context.Canceled
+				})
+				return k
+			}
+			const runsA, runsB = 230, 231
+			a := mk(3, runsA)
+			a.SetContext(context.Background(), false)
+			var durs []int64
+			for i := 0; i < 3; i++ {
+				vsched.Settle() // A failed; its retry timer is armed (manual timers)
+				durs = append(durs, vsched.LastTimerDur()/1e6)
+				if !vsched.FireEarliest() {
+					fail("C14.retry-lost", "container A: no retry timer armed after failure %d", i+1)
+					return
+				}
+			}
+			vsched.Settle()
+			if durs[0] != 50 || durs[1] != 100 || durs[2] != 200 {
+				fail("C14.backoff-interval", "container A was retried after %v ms, want [50 100 200]", durs)
+			}
+			b := mk(1, runsB)
+			b.SetContext(context.Background(), false)
+			vsched.Settle()
+			if d := vsched.LastTimerDur() / 1e6; d != 50 {
+				fail("C14.backoff-interval", "container B failed for the first time but its retry is scheduled after %d ms, not after its own first back-off interval (50 ms): back-off state is shared between containers built from one option value", d)
+			}
+			if !vsched.FireEarliest() {
+				fail("C14.retry-lost", "container B: no retry timer armed after its first failure")
+			}
+			vsched.Settle()
+			if vsched.Ctr(runsA) != 4 || vsched.Ctr(runsB) != 2 {
+				fail("C14.retry-lost", "runs: A=%d B=%d, want 4 and 2", vsched.Ctr(runsA), vsched.Ctr(runsB))
+			}
+			a.ClearContext()
+			b.ClearContext()
+			vsched.Settle()
+		},
+	})
+	eng.Register(&eng.Scenario{
+		Name: "routine-retry-ctxswap", Props: []string{"C14", "C05"}, ObsNames: stdObs,
+		Doc:   "RoutineContainer with retry back-off (timers fire freely): the first instance returns an error; the container is given another context with SetContext(ctx2, restart=false) - which leaves the failed routine to its pending retry - and then the owner of the first context cancels it: the retry runs the routine again, under ctx2",
+		Quick: eng.Bounds{PB: 2}, Thorough: eng.Bounds{PB: 3},
+		Body: func() {
+			o := newRCRetry()
+			ctx1, cancel1 := context.WithCancel(context.WithValue(context.Background(), ctxKey{}, 1))
+			defer cancel1()
+			vsched.CtrAdd(rCalls, 1)
+			vsched.CtrSet(rCtxTag, 1)
+			o.setContext(ctx1, false)
+			vsched.CtrAdd(rCallsDone, 1)
+			var cur context.Context = ctx1
+			doLetter(o, lSetRoutine, &cur, "")
+			if vsched.Choose(2) == 1 {
+				vsched.Settle()
+			}
+			doLetter(o, lCtxFresh, &cur, "") // SetContext(fresh, false)
+			vsched.CtrAdd(rCalls, 1)
+			cancel1() // the old context ends; the container no longer uses it
+			vsched.CtrAdd(rCallsDone, 1)
+			vsched.Settle()
+			live, _, _ := liveInstances(0)
+			if vsched.Ctr(rRuns) < 2 || live != 1 {
+				fail("C14.retry-lost", "the routine failed once with retry configured and the container was moved to another context without restart: %d run(s), %d live instance(s) at quiescence, want the retry to have run it again", vsched.Ctr(rRuns), live)
+			}
+			finalRoutineOracle(o, false)
+			o.clear()
+			vsched.Settle()
+		},
+	})
+	eng.Register(&eng.Scenario{
+		Name: "routine-waitexited-parked", Props: []string{"C14"}, ObsNames: stdObs, Manual: true,
+		Doc:   "RoutineContainer / StateRoutineContainer with or without retry back-off (choices; the retry timer does not fire): two callers are already blocked in WaitExited when the instance returns (an error or nil, choice): both return that instance's result at once - they are not left waiting for the retry",
+		Quick: eng.Bounds{PB: 2}, Thorough: eng.Bounds{PB: 3},
+		Body: func() {
+			withRetry := vsched.Choose(2) == 1
+			state := vsched.Choose(2) == 1
+			out := []int{iReturnErr, iReturnNil}[vsched.Choose(2)]
+			var opts []routine.Option
+			if withRetry {
+				opts = append(opts, routine.WithBackoff(&constBackoff{}))
+			}
+			g := &vsched.Gate{}
+			body := func(ctx context.Context) error {
+				g.Wait() // the instance returns only once both waiters are parked
+				return instance(ctx, 1, out, 0)
+			}
+			var waitExited func(ctx context.Context, returnIfNotRunning bool, errCh <-chan error) error
+			var clear func() bool
+			c := context.WithValue(context.Background(), ctxKey{}, 1)
+			if state {
+				k := routine.NewStateRoutineContainer[int](nil, opts...)
+				k.SetStateRoutine(func(ctx context.Context, st int) error { return body(ctx) })
+				k.SetContext(c, false)
+				k.SetState(1)
+				waitExited, clear = k.WaitExited, k.ClearContext
+			} else {
+				k := routine.NewRoutineContainer(opts...)
+				k.SetRoutine(body)
+				k.SetContext(c, false)
+				waitExited, clear = k.WaitExited, k.ClearContext
+			}
+			for i := 0; i < 2; i++ {
+				T("W", func() {
+					label("WaitExited")
+					err := waitExited(context.Background(), false, nil)
+					label("")
+					want := error(nil)
+					if out == iReturnErr {
+						want = errRoutine
+					}
+					if err != want {
+						fail("C14.waitexited", "WaitExited returned %v, the instance returned %v", err, want)
+					}
+				})
+			}
+			vsched.Settle() // both waiters parked, the instance waits at the gate
+			g.Open()
+			vsched.Settle()
+			if n := vsched.CountParked("WaitExited"); n > 0 {
+				fail("C14.waitexited", "%d caller(s) still blocked in WaitExited although the current instance has exited (retry configured: %v, pending, not fired)", n, withRetry)
+			}
+			clear()
 			vsched.Settle()
 		},
 	})
